@@ -2,6 +2,7 @@ REGISTRY = {
     "C01": "c01_liveset",
     "C02": "c02_evidence",
     "C04": "c04_store",
+    "C05": "c05_results",
     "C10": "c10_batch",
     "C11": "c11_crash",
     "C12": "c12_resume",
